@@ -52,6 +52,9 @@ func Digest(b []byte) string {
 // Observe converts an in-process response into the same shape as a guarded one.
 func Observe(r *Resp) GResp {
 	g := GResp{Status: r.Status, CT: r.CT(), Len: len(r.Body), Sum: Digest(r.Body), Panic: r.Panic, PanicFrame: r.PanicFrame}
+	if r.Hang {
+		g.Hung, g.Note = true, "handler blocked without returning until the real-time watchdog"
+	}
 	n := len(r.Body)
 	if n > 80 {
 		n = 80
@@ -99,6 +102,65 @@ type guardProc struct {
 	w      *os.File
 	lines  chan []byte
 	warmed map[string]bool
+	stderr *tailBuf
+}
+
+// tailBuf keeps the first 64 KiB the child writes to stderr (a Go crash report starts with its cause).
+type tailBuf struct {
+	mu sync.Mutex
+	b  []byte
+}
+
+func (t *tailBuf) Write(p []byte) (int, error) {
+	t.mu.Lock()
+	if room := 1<<16 - len(t.b); room > 0 {
+		if len(p) < room {
+			room = len(p)
+		}
+		t.b = append(t.b, p[:room]...)
+	}
+	t.mu.Unlock()
+	return len(p), nil
+}
+
+// deathCause waits for the child to end and extracts "panic: ..." / "fatal error: ..." and the innermost
+// livesim2 frame from its crash report.
+func (gp *guardProc) deathCause() (cause, frame string) {
+	done := make(chan struct{})
+	go func() { _ = gp.cmd.Wait(); close(done) }()
+	select {
+	case <-done:
+	case <-time.After(5 * time.Second):
+	}
+	gp.stderr.mu.Lock()
+	txt := string(gp.stderr.b)
+	gp.stderr.mu.Unlock()
+	for _, l := range strings.Split(txt, "\n") {
+		if cause == "" && (strings.HasPrefix(l, "panic: ") || strings.HasPrefix(l, "fatal error: ")) {
+			cause = strings.TrimSpace(l)
+			if i := strings.Index(cause, " [recovered]"); i > 0 {
+				cause = cause[:i]
+			}
+			continue
+		}
+		if cause != "" && frame == "" && strings.Contains(l, "Dash-Industry-Forum/livesim2/") && !strings.HasPrefix(l, "\t") {
+			f := l[strings.LastIndex(l, "/")+1:]
+			if i := strings.LastIndex(f, "("); i > 0 {
+				f = f[:i]
+			}
+			frame = f
+		}
+	}
+	if cause == "" {
+		cause = "child ended without a crash report"
+	} else if i := strings.Index(txt, cause); i >= 0 {
+		rep := txt[i:]
+		if len(rep) > 1800 {
+			rep = rep[:1800]
+		}
+		cause = rep
+	}
+	return cause, frame
 }
 
 var (
@@ -132,12 +194,14 @@ func guardStart() *guardProc {
 	}
 	cmd.Env = append(env, "VERIF_MODE="+GuardChildEnv, "GOMAXPROCS=2")
 	cmd.ExtraFiles = []*os.File{toChildR, fromChildW} // fd 3, fd 4 in the child
+	errBuf := &tailBuf{}
+	cmd.Stderr = errBuf
 	if err := cmd.Start(); err != nil {
 		panic("harness: guard: cannot start child: " + err.Error())
 	}
 	toChildR.Close()
 	fromChildW.Close()
-	gp := &guardProc{cmd: cmd, w: toChildW, lines: make(chan []byte, 1), warmed: map[string]bool{}}
+	gp := &guardProc{cmd: cmd, w: toChildW, lines: make(chan []byte, 1), warmed: map[string]bool{}, stderr: errBuf}
 	go func() {
 		rd := bufio.NewReaderSize(fromChildR, 1<<16)
 		for {
@@ -195,7 +259,8 @@ func (gp *guardProc) roundTrip(rq guardReq, tripMS int64) GResp {
 		select {
 		case line, ok := <-gp.lines:
 			if !ok {
-				return GResp{Died: true, Note: "child ended"}
+				cause, frame := gp.deathCause()
+				return GResp{Died: true, Note: cause, PanicFrame: frame}
 			}
 			var g GResp
 			if err := json.Unmarshal(line, &g); err != nil {
